@@ -267,13 +267,31 @@ def r194(repo, ctx, index):
                   construct=f'{cls}: selection {sorted(sel)} vs poll {sorted(used)}')
     ctx.floor('R19.4', n, 6)
     f = repo.func(SC, f'{BASECLS}._testCondition')
-    ok = False
-    for s in ast.walk(f):
-        if isinstance(s, ast.If) and 'GREATER_THAN' in U.src(s.test) and isinstance(s.test.ops[0], ast.Eq):
-            g = [r for r in s.body if isinstance(r, ast.Return)]
-            l = [r for r in s.orelse if isinstance(r, ast.Return)]
-            if g and l and isinstance(g[0].value, ast.Compare) and isinstance(l[0].value, ast.Compare):
-                ok = isinstance(g[0].value.ops[0], ast.Gt) and isinstance(l[0].value.ops[0], ast.Lt) and U.chain(g[0].value.comparators[0]) == ('self', '_value') and U.chain(l[0].value.comparators[0]) == ('self', '_value')
+    # every path of _testCondition: the branch taken for GREATER_THAN returns value > threshold, the other value < threshold
+    sx = SymExec(repo, index, (SC, BASECLS))
+    outs = [o for o in sx.run(f) if o.status != 'raise']
+    seen = set()
+    ok = bool(outs)
+    for o in outs:
+        sense = None
+        for tv, text in o.conds:
+            t = text.replace(' ', '').strip('()')
+            for opname, flip in (('==', False), ('!=', True)):
+                if t in (f'self._condition{opname}Inequality.GREATER_THAN', f'Inequality.GREATER_THAN{opname}self._condition'):
+                    sense = 'gt' if ((tv == 'T') != flip) else 'lt'
+                if t in (f'self._condition{opname}Inequality.LESSER_THAN', f'Inequality.LESSER_THAN{opname}self._condition'):
+                    sense = 'lt' if ((tv == 'T') != flip) else 'gt'
+        rv = o.retval
+        got = None
+        if isinstance(rv, tuple) and rv[0] == 'cmp' and len(rv) == 4:
+            if rv[3] == ('old', '_value') and 'call' in repr(rv[2]):
+                got = {'Gt': 'gt', 'Lt': 'lt'}.get(rv[1])
+            elif rv[2] == ('old', '_value') and 'call' in repr(rv[3]):
+                got = {'Lt': 'gt', 'Gt': 'lt'}.get(rv[1])
+        if sense is None or got != sense:
+            ok = False
+        seen.add(sense)
+    ok = ok and seen == {'gt', 'lt'}
     ctx.check(ok, 'R19.4', SC, f'{BASECLS}._testCondition', f, 'GREATER_THAN tests value > threshold, LESSER_THAN tests value < threshold', 'the inequality table is wrong')
     p = repo.func(SC, f'{BASECLS}._poll')
     t = U.src(p).replace(' ', '')
